@@ -1,0 +1,65 @@
+//go:build verif
+
+// Contracts checked by /verif (gocv). Comment-only; compiled only with -tags verif.
+
+package execution
+
+// Query options as built by New: the batch size is positive and the step is not negative.
+//@ pred optsOK(o) = o != nil && o.StepsBatch >= 1 && o.Step >= 0 && o.LookbackDelta >= 0
+
+// getTimeRangesForVectorSelector = promql/engine.go getTimeRangesForSelector of the pinned
+// Prometheus with the subquery terms zero: the window a selector reads, for the hints and the querier.
+//@ func getTimeRangesForVectorSelector
+//@   requires n != nil && opts != nil
+//@   assigns nothing
+//@   ensures[C02,C16] start-no-at: n.Timestamp == nil ==> result0 == opts.Start.UnixMilli()
+//@       - ite(evalRange == 0, opts.LookbackDelta.Milliseconds(), evalRange.Milliseconds()) - n.OriginalOffset.Milliseconds()
+//@   ensures[C02,C16] end-no-at: n.Timestamp == nil ==> result1 == opts.End.UnixMilli() - n.OriginalOffset.Milliseconds()
+//@   ensures[C02,C16] start-at: n.Timestamp != nil ==> result0 == *n.Timestamp
+//@       - ite(evalRange == 0, opts.LookbackDelta.Milliseconds(), evalRange.Milliseconds()) - n.OriginalOffset.Milliseconds()
+//@   ensures[C02,C16] end-at: n.Timestamp != nil ==> result1 == *n.Timestamp - n.OriginalOffset.Milliseconds()
+
+//@ func unpackVectorSelector
+//@   requires t != nil
+//@   assigns nothing
+//@   ensures[C08] err-is-unsupported: result2 != nil ==> result2.isNS && result0 == nil
+//@   ensures[C09,C16] plain: istype(t.VectorSelector, *parser.VectorSelector) ==> result2 == nil && ref(result0) == t.VectorSelector.data && len(result1) == 0
+//@   ensures ok-nonnil: result2 == nil && t.VectorSelector.data != 0 ==> result0 != nil
+
+// newShardedVectorSelector: one vector selector per shard i of numShards = max(1, GOMAXPROCS/2);
+// every shard gets the same selector, options and offset (C02, C11).
+//@ func newShardedVectorSelector
+//@   requires optsOK(opts) && selector != nil
+//@   ensures[C08] never-fails: result1 == nil && result0 != nil
+//@   at scan.NewVectorSelector assert[C02,C11] shard-args: $selector == selector && $queryOpts == opts && $offset == offset &&
+//@       $shard == i && $numShards == numShards && 0 <= i && i < numShards && numShards >= 1
+//@   loop 0 invariant shards: 0 <= i && i <= numShards && numShards >= 1 && len(operators) == i
+
+//@ func newVectorBinaryOperator
+//@   requires e != nil && selectorPool != nil && optsOK(opts)
+//@   ensures[C08] err-is-unsupported-or-remote: result1 != nil ==> result1.isNS || result1.isNI || result1.fromRemote
+//@   ensures ok-nonnil: result1 == nil ==> result0 != nil
+//@   at execution.newOperator line "e.LHS" assert[C05] lhs-first: $expr == e.LHS && $opts == opts && $storage == selectorPool
+//@   at execution.newOperator line "e.RHS" assert[C05] rhs-second: $expr == e.RHS && $opts == opts && $storage == selectorPool
+//@   at execution.newOperator assert[C16] binary-resets-hints: $hints.Func == "" && len($hints.Grouping) == 0 && !$hints.By &&
+//@       $hints.Start == hints.Start && $hints.End == hints.End && $hints.Step == hints.Step
+//@   at binary.NewVectorOperator assert[C05] operator-args: $matching == e.VectorMatching && $operation == e.Op && $returnBool == e.ReturnBool
+
+// newScalarBinaryOperator: the vector side is passed as `next`, the scalar side as `scalar`; the
+// side flag says where the scalar stood in the expression (C05).
+//@ func newScalarBinaryOperator
+//@   requires e != nil && selectorPool != nil && optsOK(opts)
+//@   ensures[C08] err-is-unsupported-or-remote: result1 != nil ==> result1.isNS || result1.isNI || result1.fromRemote
+//@   ensures ok-nonnil: result1 == nil ==> result0 != nil
+//@   at execution.newOperator assert[C16] binary-resets-hints: $hints.Func == "" && len($hints.Grouping) == 0 && !$hints.By &&
+//@       $hints.Start == hints.Start && $hints.End == hints.End && $hints.Step == hints.Step
+//@   at binary.NewScalar assert[C05] op-and-bool: $op == e.Op && $returnBool == e.ReturnBool
+//@   at binary.NewScalar assert[C05] side: ($scalarSide == binary.ScalarSideBoth <==> (e.LHS.Type() == parser.ValueTypeScalar && e.RHS.Type() == parser.ValueTypeScalar)) &&
+//@       ($scalarSide == binary.ScalarSideLeft <==> (e.LHS.Type() == parser.ValueTypeScalar && e.RHS.Type() != parser.ValueTypeScalar)) &&
+//@       ($scalarSide == binary.ScalarSideRight <==> e.LHS.Type() != parser.ValueTypeScalar)
+//@   at binary.NewScalar assert[C05] operands: ($scalarSide == binary.ScalarSideLeft ==>
+//@         $next == callres("execution.newOperator", 2, 0) && $scalar == callres("execution.newOperator", 1, 0)) &&
+//@       ($scalarSide != binary.ScalarSideLeft ==>
+//@         $next == callres("execution.newOperator", 1, 0) && $scalar == callres("execution.newOperator", 2, 0))
+//@   at execution.newOperator #1 assert[C05] lhs-first: $expr == e.LHS && $opts == opts && $storage == selectorPool
+//@   at execution.newOperator #2 assert[C05] rhs-second: $expr == e.RHS && $opts == opts && $storage == selectorPool
